@@ -186,26 +186,12 @@ def showKids (d : Dom) (nm : Names) (p : Id) : String × Names :=
 /-! the oracle: compare with a fresh build, attributes as a map, class as a token set, style as
 a declaration map -/
 
-def insSorted (a : String × String) : List (String × String) → List (String × String)
-  | [] => [a]
-  | b :: bs => if a.1 < b.1 || (a.1 == b.1 && a.2 < b.2) then a :: b :: bs else b :: insSorted a bs
-
-def sortPairs (l : List (String × String)) : List (String × String) := l.foldr insSorted []
-
-def normAttr (kv : String × String) : String × String :=
-  if kv.1 == "class" then
-    (kv.1, " ".intercalate ((sortPairs ((classTokens kv.2).map fun t => (t, ""))).map (·.1)))
-  else if kv.1 == "style" then (kv.1, styleText (sortPairs (styleDecls kv.2)))
-  else kv
-
 mutual
 def normTree : Tree → String
   | .text s => "T:" ++ hexOfStr s
   | .comment s => "C:" ++ hexOfStr s
   | .elem tag attrs kids =>
-    -- an empty class / style attribute is identified with an absent one
-    let attrs := sortPairs ((attrs.map normAttr).filter fun kv =>
-      !((kv.1 == "class" || kv.1 == "style") && kv.2.isEmpty))
+    let attrs := normAttrs attrs
     "E(" ++ tag ++ ";" ++ "&".intercalate (attrs.map fun (k, v) => k ++ "=" ++ hexOfStr v) ++ ";"
       ++ normTrees kids ++ ")"
 def normTrees : List Tree → String
